@@ -135,6 +135,24 @@ Theorem C08_qs_roundtrip : forall m cdl csv,
 Proof. exact qs_roundtrip. Qed.
 Print Assumptions C08_qs_roundtrip.
 
+Theorem C08_qs_prefix : forall m cdl,
+  canonical cdl m = true -> mapping_scalar m = true -> is_nil m = false ->
+  exists q, to_query_str m cdl false = Ok q /\ to_query_str m cdl true = Ok (63 :: q).
+Proof. exact qs_prefix. Qed.
+Print Assumptions C08_qs_prefix.
+
+(* ---- the harness's expected values (Spec on the reference mapping) are the model's outputs *)
+Theorem C08_harness_oracles_sound : forall s kb csv p name required mn mx bat,
+  forallb scalar s = true -> req_params s kb csv = Ok p ->
+  p = ref_parse s kb csv /\
+  get_param true p name required = spec_get Some never never (ref_parse s kb csv) name required /\
+  get_param_as_int true p name required mn mx
+  = spec_get py_int (below mn) (above mx) (ref_parse s kb csv) name required /\
+  get_param_as_bool true p name required bat
+  = spec_get (bool_of bat) never never (ref_parse s kb csv) name required.
+Proof. exact harness_oracles_sound. Qed.
+Print Assumptions C08_harness_oracles_sound.
+
 (* ---- non-vacuity / documented edges *)
 (* "a=1,%2C&b=caf%C3%A9&a=+x&c&=&d=" *)
 Definition sample_qs : str :=
